@@ -5,11 +5,45 @@ use ohsl::traits::{Number, Signed};
 use ohsl::{Cmplx, Polynomial};
 use std::fmt::Debug;
 
+/// equality of element values decided by the harness, not by the element type's own PartialEq (which for Complex is
+/// part of the crate under test: a model comparing with it inherits its faults)
+trait Ind: Copy {
+    fn ieq(&self, o: &Self) -> bool;
+    fn izero(&self) -> bool;
+}
+impl Ind for Rat {
+    fn ieq(&self, o: &Self) -> bool {
+        self.n * o.d == o.n * self.d
+    }
+    fn izero(&self) -> bool {
+        self.n == 0
+    }
+}
+impl Ind for f64 {
+    fn ieq(&self, o: &Self) -> bool {
+        *self == *o
+    }
+    fn izero(&self) -> bool {
+        *self == 0.0
+    }
+}
+impl Ind for Cmplx {
+    fn ieq(&self, o: &Self) -> bool {
+        self.real == o.real && self.imag == o.imag
+    }
+    fn izero(&self) -> bool {
+        self.real == 0.0 && self.imag == 0.0
+    }
+}
+fn veq<T: Ind>(a: &[T], b: &[T]) -> bool {
+    a.len() == b.len() && a.iter().zip(b.iter()).all(|(x, y)| x.ieq(y))
+}
+
 // --- the boring model: coefficient lists ------------------------------------------------------------
-fn strip<T: Number + Copy>(v: &[T]) -> Vec<T> {
+fn strip<T: Number + Copy + Ind>(v: &[T]) -> Vec<T> {
     let mut w = v.to_vec();
     while let Some(l) = w.last() {
-        if *l == T::zero() {
+        if l.izero() {
             w.pop();
         } else {
             break;
@@ -60,9 +94,9 @@ struct Dom<T> {
     pts: Vec<T>,
 }
 
-fn same<T: Number + Copy + Debug>(got: &Polynomial<T>, expect: &[T], natural_len: Option<usize>, what: &str) -> Result<(), String> {
+fn same<T: Number + Copy + Debug + Ind>(got: &Polynomial<T>, expect: &[T], natural_len: Option<usize>, what: &str) -> Result<(), String> {
     let g = coeffs_of(got);
-    ensure!(strip(&g) == strip(expect), "{}: coefficients {:?} expected {:?}", what, g, expect);
+    ensure!(veq(&strip(&g), &strip(expect)), "{}: coefficients {:?} expected {:?}", what, g, expect);
     if let Some(l) = natural_len {
         ensure!(g.len() <= l.max(strip(expect).len()), "{}: stored length {} exceeds the natural length {}", what, g.len(), l);
     }
@@ -71,7 +105,7 @@ fn same<T: Number + Copy + Debug>(got: &Polynomial<T>, expect: &[T], natural_len
 
 fn check_pair<T>(a: &[T], b: &[T], dom: &Dom<T>) -> Result<(), String>
 where
-    T: Number + Signed + Copy + Debug,
+    T: Number + Signed + Copy + Debug + Ind,
 {
     let from = &dom.from;
     let pa = Polynomial::new(a.to_vec());
@@ -81,7 +115,16 @@ where
         Ok(d) => ensure!(!a.is_empty() && d == a.len() - 1, "degree() = {} for {} coefficients", d, a.len()),
         Err(_) => ensure!(a.is_empty(), "degree() is Err for a non-empty polynomial"),
     }
-    ensure!(pa.is_zero() == a.iter().all(|c| *c == T::zero()), "is_zero()");
+    ensure!(pa.is_zero() == a.iter().all(|c| c.izero()), "is_zero() = {} for {:?}", pa.is_zero(), a);
+    {
+        // trim removes exactly the trailing zero coefficients (and nothing else)
+        if !a.is_empty() {
+            let mut t = pa.clone();
+            t.trim();
+            let want = strip(a);
+            ensure!(veq(&strip(&coeffs_of(&t)), &want) && coeffs_of(&t).len() == want.len().max(1), "trim() of {:?} left {:?}", a, coeffs_of(&t));
+        }
+    }
     // sums / differences / products, borrowed and owned
     let sum = &pa + &pb;
     same(&sum, &m_add(a, b), Some(a.len().max(b.len())), "&a + &b")?;
@@ -96,7 +139,7 @@ where
     let natural = if a.is_empty() || b.is_empty() { 0 } else { a.len() + b.len() - 1 };
     same(&prod, &m_mul(a, b), Some(natural), "&a * &b")?;
     same(&(pa.clone() * pb.clone()), &m_mul(a, b), Some(natural), "a * b")?;
-    if !a.is_empty() && !b.is_empty() && *a.last().unwrap() != T::zero() && *b.last().unwrap() != T::zero() {
+    if !a.is_empty() && !b.is_empty() && !a.last().unwrap().izero() && !b.last().unwrap().izero() {
         ensure!(prod.degree() == Ok(a.len() + b.len() - 2), "deg(a*b) = {:?} expected {}", prod.degree(), a.len() + b.len() - 2);
     }
     for s in [from(0), from(1), from(-3)] {
@@ -107,42 +150,42 @@ where
     // named constructors: quadratic(a,b,c) = a x^2 + b x + c, cubic(a,b,c,d) = a x^3 + b x^2 + c x + d
     if a.len() >= 3 {
         let q = Polynomial::quadratic(a[0], a[1], a[2]);
-        ensure!(coeffs_of(&q) == vec![a[2], a[1], a[0]], "quadratic({:?},{:?},{:?}) stores {:?}", a[0], a[1], a[2], coeffs_of(&q));
+        ensure!(veq(&coeffs_of(&q), &[a[2], a[1], a[0]]), "quadratic({:?},{:?},{:?}) stores {:?}", a[0], a[1], a[2], coeffs_of(&q));
         for &x in dom.pts.iter() {
-            ensure!(q.eval(x) == a[0] * x * x + a[1] * x + a[2], "quadratic(a,b,c).eval");
+            ensure!(q.eval(x).ieq(&(a[0] * x * x + a[1] * x + a[2])), "quadratic(a,b,c).eval");
         }
         if !b.is_empty() {
             let cu = Polynomial::cubic(a[0], a[1], a[2], b[0]);
-            ensure!(coeffs_of(&cu) == vec![b[0], a[2], a[1], a[0]], "cubic stores {:?}", coeffs_of(&cu));
+            ensure!(veq(&coeffs_of(&cu), &[b[0], a[2], a[1], a[0]]), "cubic stores {:?}", coeffs_of(&cu));
         }
     }
     {
         let mut pm = pa.clone();
         pm.coeffs().push(from(5));
-        ensure!(pm.size() == a.len() + 1 && pm[a.len()] == from(5) && coeffs_of(&pa) == a, "coeffs() does not expose the coefficient vector of this polynomial only");
+        ensure!(pm.size() == a.len() + 1 && pm[a.len()].ieq(&from(5)) && veq(&coeffs_of(&pa), a), "coeffs() does not expose the coefficient vector of this polynomial only");
     }
     // operands untouched, clone equal
-    ensure!(coeffs_of(&pa) == a && coeffs_of(&pb) == b, "operands modified");
-    ensure!(coeffs_of(&pa.clone()) == a, "clone differs");
+    ensure!(veq(&coeffs_of(&pa), a) && veq(&coeffs_of(&pb), b), "operands modified");
+    ensure!(veq(&coeffs_of(&pa.clone()), a), "clone differs");
     // evaluation homomorphism
     for &x in dom.pts.iter() {
         let va = if a.is_empty() { T::zero() } else { pa.eval(x) };
         let vb = if b.is_empty() { T::zero() } else { pb.eval(x) };
         if !a.is_empty() {
-            ensure!(va == m_eval(a, x), "eval(a, {:?}) = {:?} expected {:?}", x, va, m_eval(a, x));
+            ensure!(va.ieq(&m_eval(a, x)), "eval(a, {:?}) = {:?} expected {:?}", x, va, m_eval(a, x));
         }
         // a result built from a non-empty operand must itself be evaluable (an all-zero operand is not the empty polynomial)
         ensure!(sum.size() > 0 || (a.is_empty() && b.is_empty()), "a + b is empty although an operand is not");
         ensure!(dif.size() > 0 || (a.is_empty() && b.is_empty()), "a - b is empty although an operand is not");
         ensure!(prod.size() > 0 || a.is_empty() || b.is_empty(), "a * b is empty although both operands hold coefficients ({:?} * {:?})", a, b);
         if sum.size() > 0 {
-            ensure!(sum.eval(x) == va + vb, "(a+b)({:?}) = {:?} but a(x)+b(x) = {:?}", x, sum.eval(x), va + vb);
+            ensure!(sum.eval(x).ieq(&(va + vb)), "(a+b)({:?}) = {:?} but a(x)+b(x) = {:?}", x, sum.eval(x), va + vb);
         }
         if dif.size() > 0 {
-            ensure!(dif.eval(x) == va - vb, "(a-b)({:?}) != a(x)-b(x)", x);
+            ensure!(dif.eval(x).ieq(&(va - vb)), "(a-b)({:?}) != a(x)-b(x)", x);
         }
         if prod.size() > 0 {
-            ensure!(prod.eval(x) == va * vb, "(a*b)({:?}) = {:?} but a(x)*b(x) = {:?}", x, prod.eval(x), va * vb);
+            ensure!(prod.eval(x).ieq(&(va * vb)), "(a*b)({:?}) = {:?} but a(x)*b(x) = {:?}", x, prod.eval(x), va * vb);
         }
     }
     // differentiation
@@ -153,7 +196,7 @@ where
             same(&dn, &expect, Some(a.len().saturating_sub(order)), &format!("derivative_n({})", order))?;
             if !expect.is_empty() {
                 for &x in dom.pts.iter().take(3) {
-                    ensure!(pa.derivative_at(x, order) == m_eval(&expect, x), "derivative_at(x, {})", order);
+                    ensure!(pa.derivative_at(x, order).ieq(&m_eval(&expect, x)), "derivative_at(x, {})", order);
                 }
             }
             expect = m_deriv(&expect, from.as_ref());
@@ -164,10 +207,10 @@ where
         // linearity and product rule, as identities between results of the real operations
         let lhs = (&pa + &pb).derivative();
         let rhs = &pa.derivative() + &pb.derivative();
-        ensure!(strip(&coeffs_of(&lhs)) == strip(&coeffs_of(&rhs)), "(a+b)' != a' + b'");
+        ensure!(veq(&strip(&coeffs_of(&lhs)), &strip(&coeffs_of(&rhs))), "(a+b)' != a' + b'");
         let lhs = (&pa * &pb).derivative();
         let rhs = &(&pa.derivative() * &pb) + &(&pa * &pb.derivative());
-        ensure!(strip(&coeffs_of(&lhs)) == strip(&coeffs_of(&rhs)), "(ab)' != a'b + ab': {:?} vs {:?}", coeffs_of(&lhs), coeffs_of(&rhs));
+        ensure!(veq(&strip(&coeffs_of(&lhs)), &strip(&coeffs_of(&rhs))), "(ab)' != a'b + ab': {:?} vs {:?}", coeffs_of(&lhs), coeffs_of(&rhs));
     }
     Ok(())
 }
@@ -199,7 +242,7 @@ fn count_vecs(maxlen: usize, l: u64) -> u64 {
 
 fn pair_space<T>(ctx: &Ctx, tname: &str, maxlen: usize, letters: Vec<T>, dom: Dom<T>)
 where
-    T: Number + Signed + Copy + Debug + Sync + Send,
+    T: Number + Signed + Copy + Debug + Sync + Send + Ind,
 {
     let nv = count_vecs(maxlen, letters.len() as u64);
     ctx.lattice(
@@ -215,12 +258,48 @@ where
             if a.len() != b.len() {
                 acc.nontriv("operands of different length");
             }
-            if a.last().map_or(false, |c| *c == T::zero()) || b.last().map_or(false, |c| *c == T::zero()) {
+            if a.last().map_or(false, |c| c.izero()) || b.last().map_or(false, |c| c.izero()) {
                 acc.nontriv("trailing zero coefficient");
             }
             judge(acc, idx, || format!("{} a={:?} b={:?}", tname, a, b), || check_pair(&a, &b, &dom));
         },
     );
+}
+
+/// evaluation at points of extreme magnitude: the correctly rounded value of the exact result (which may be +-inf or 0)
+fn extreme_eval_case(a: &[f64]) -> Result<(), String> {
+    let p = Polynomial::new(a.to_vec());
+    let big = 2.0f64.powi(600);
+    let tiny = 2.0f64.powi(-600);
+    let hi = a.iter().rposition(|c| *c != 0.0);
+    let lo = a.iter().position(|c| *c != 0.0);
+    for s in [1.0, -1.0] {
+        // |x| = 2^600: the leading non-zero term decides; degree >= 2 overflows to the infinity of its sign
+        let x = s * big;
+        let want = match hi {
+            None => 0.0,
+            Some(0) => a[0],
+            Some(1) => a[1] * x + a[0],
+            Some(d) => a[d] * (if d % 2 == 1 { s } else { 1.0 }) * f64::INFINITY,
+        };
+        let got = p.eval(x);
+        ensure!(got == want, "eval({:?}, {:e}) = {:e} but the correctly rounded value is {:e}", a, x, got, want);
+        // |x| = 2^-600: the lowest non-zero term decides; order >= 2 underflows to zero
+        let x = s * tiny;
+        let want = match lo {
+            None => 0.0,
+            Some(0) => a[0],
+            Some(1) => a[1] * x,
+            Some(_) => 0.0,
+        };
+        let got = p.eval(x);
+        ensure!(got == want, "eval({:?}, {:e}) = {:e} but the correctly rounded value is {:e}", a, x, got, want);
+        // the same through the complex entry point at the tiny point (no infinities involved)
+        let pc = Polynomial::new(a.iter().map(|c| Cmplx::new(*c, 0.0)).collect::<Vec<_>>());
+        let gc = pc.eval(Cmplx::new(x, 0.0));
+        ensure!(gc.real == want && gc.imag == 0.0, "complex eval({:?}, {:e}) = {:?} expected {:e}", a, x, gc, want);
+    }
+    Ok(())
 }
 
 fn family<T: Copy>(from: &dyn Fn(i64) -> T) -> Vec<Vec<T>> {
@@ -248,7 +327,7 @@ fn family<T: Copy>(from: &dyn Fn(i64) -> T) -> Vec<Vec<T>> {
 }
 fn family_space<T>(ctx: &Ctx, tname: &str, dom: Dom<T>)
 where
-    T: Number + Signed + Copy + Debug + Sync + Send,
+    T: Number + Signed + Copy + Debug + Sync + Send + Ind,
 {
     let fam = family(dom.from.as_ref());
     let n = fam.len() as u64;
@@ -436,9 +515,9 @@ impl Sut for St {
 fn main() {
     let ctx = Ctx::from_args("C11");
     ctx.level("model_checking");
-    ctx.rule("E1: all ordered pairs of coefficient vectors of length 0..3 (quick) / 0..4 (thorough) over {-1,0,1,2} for exact rationals, integer-valued f64 and Gaussian-integer Complex<f64>, and all pairs from a 39-member family of length <= 9: +, -, unary -, *, scalar * (owned and borrowed) against termwise/convolution lists modulo trailing zeros, eval at 6 points as a ring homomorphism, derivative_n for every order 0..deg+1 against k*a_k, linearity and product rule. E2: BFS over histories of ring operations, differentiation, trim and coefficient writes on a real Polynomial<Rat> against a coefficient-list model. Non-trivial: empty operands, different lengths, trailing zero coefficients, empty results.");
+    ctx.rule("E1: all ordered pairs of coefficient vectors of length 0..3 (quick) / 0..4 (thorough) over {-1,0,1,2} for exact rationals, integer-valued f64 and Gaussian-integer Complex<f64>, and all pairs from a 39-member family of length <= 9: +, -, unary -, *, scalar * (owned and borrowed) against termwise/convolution lists modulo trailing zeros, eval at 6 points as a ring homomorphism, derivative_n for every order 0..deg+1 against k*a_k, linearity and product rule; is_zero and trim against the model's own zero test (element equality is decided by the harness, not by the element type's PartialEq); evaluation of every integer polynomial of length <= 5 (thorough 7) at x = +-2^600 and +-2^-600 against the correctly rounded exact value (+-inf, 0 included). E2: BFS over histories of ring operations, differentiation, trim and coefficient writes on a real Polynomial<Rat> against a coefficient-list model. Non-trivial: empty operands, different lengths, trailing zero coefficients, empty results.");
     ctx.assume("all data are small integers / dyadic fractions, so f64 and Complex<f64> results are exact and compared with ==");
-    ctx.require(&["empty operand", "operands of different length", "trailing zero coefficient", "degree >= 4 operand", "empty polynomial state", "state with zero leading coefficient"]);
+    ctx.require(&["empty operand", "operands of different length", "trailing zero coefficient", "degree >= 4 operand", "evaluation at a point of extreme magnitude", "empty polynomial state", "state with zero leading coefficient"]);
     let ml = ctx.pick(3, 4);
     let li = [-1i64, 0, 1, 2];
     pair_space(&ctx, "Rat", ml, li.iter().map(|&v| r(v)).collect(), Dom { from: Box::new(|k| r(k)), pts: vec![r(-2), r(-1), r(0), rq(1, 2), r(1), r(2)] });
@@ -448,6 +527,31 @@ fn main() {
     family_space(&ctx, "Rat", Dom { from: Box::new(|k| r(k)), pts: vec![r(-2), r(-1), r(0), rq(1, 2), r(1), r(2)] });
     family_space(&ctx, "f64", Dom { from: Box::new(|k| k as f64), pts: vec![-2.0, -1.0, 0.0, 0.5, 1.0, 2.0] });
     family_space(&ctx, "Complex<f64>", Dom { from: Box::new(|k| Cmplx::new(k as f64, 0.0)), pts: vec![Cmplx::new(-2., 0.), Cmplx::new(0., 1.), Cmplx::new(0., 0.), Cmplx::new(0.5, -1.), Cmplx::new(1., 1.), Cmplx::new(2., 0.)] });
+    {
+        let el = [-1.0f64, 0.0, 1.0, 2.0, 3.0];
+        let maxlen = ctx.pick(5, 7);
+        let total: u64 = (1..=maxlen as u32).map(|k| 5u64.pow(k)).sum();
+        ctx.lattice(
+            &format!("f64 / Complex<f64> evaluation at |x| = 2^600 and 2^-600: all coefficient vectors of length 1..{} over {{-1,0,1,2,3}}", maxlen),
+            total,
+            |idx| format!("{}", idx),
+            |idx, acc| {
+                let mut i = idx;
+                let mut len = 1u32;
+                while i >= 5u64.pow(len) {
+                    i -= 5u64.pow(len);
+                    len += 1;
+                }
+                let a: Vec<f64> = (0..len).map(|_| {
+                    let v = el[(i % 5) as usize];
+                    i /= 5;
+                    v
+                }).collect();
+                acc.nontriv("evaluation at a point of extreme magnitude");
+                judge(acc, idx, || format!("extreme points a={:?}", a), || extreme_eval_case(&a));
+            },
+        );
+    }
     let depth = ctx.pick(7, 9);
     let inits = vec![St { p: Polynomial::empty(), m: vec![] }, St { p: Polynomial::new(vec![r(1), r(-2), r(1)]), m: vec![r(1), r(-2), r(1)] }];
     explore(&ctx, "ring-operation histories", inits.clone(), BfsOpts { max_depth: depth, state_cap: ctx.pick(1_000_000, 20_000_000) });
